@@ -299,6 +299,11 @@ func (vc *VC) execFunc(fn *ssa.Function, c *Contract, args []Val, bindings []Val
 	f := &frame{vc: vc, fn: fn, c: c, isTop: isTop, decr: map[*vnode]*Term{}, cutSt: map[*vnode]*State{}}
 	f.loops, f.hdr = findLoops(fn, c)
 	for _, l := range f.loops {
+		if l.spec == nil && vc.noSafety {
+			// permission mode: a loop without a specification is cut with the
+			// trivial invariant (everything it may write is havoced)
+			l.spec = &LoopSpec{}
+		}
 		if l.spec == nil {
 			unsup("loop %d of %s has no invariant/unroll", l.ordinal, fn)
 		}
@@ -977,6 +982,24 @@ func (f *frame) instr(n *vnode, st *State, in ssa.Instruction) {
 		}
 	case *ssa.Panic:
 		f.panicAt(st, in)
+	case *ssa.Range:
+		// iteration over a map or string is abstracted: an opaque iterator
+		vc.note("range over map/string abstracted as nondeterministic iteration")
+		st.env[in] = vc.freshSort("iter", "Int")
+	case *ssa.Next:
+		okc := vc.freshSort("more", SBool)
+		okc.T = types.Typ[types.Bool]
+		tup := in.Type().(*types.Tuple)
+		mk := func(t types.Type) Val {
+			if b, isB := t.(*types.Basic); isB && b.Kind() == types.Invalid {
+				return &Term{"0", "Int", nil}
+			}
+			v := vc.freshConst("it", t)
+			vc.assumeAllocated(st, v)
+			vc.assumeTypeInv(st, v)
+			return v
+		}
+		st.env[in] = Tuple{okc, mk(tup.At(1).Type()), mk(tup.At(2).Type())}
 	case *ssa.RunDefers:
 		// functions with defer are rejected when the Defer instruction is met
 	case *ssa.Defer:
@@ -1012,6 +1035,10 @@ func (f *frame) deferInstr(st *State, in *ssa.Defer) {
 
 func (f *frame) panicAt(st *State, in *ssa.Panic) {
 	vc := f.vc
+	if vc.contract != nil && vc.contract.MayPanic {
+		st.dead = true // panics are the function's way of reporting errors
+		return
+	}
 	if f.isTop && f.c != nil && (f.c.PanicsIf != nil || f.c.EnsuresPanic) {
 		if f.c.PanicsIf != nil {
 			sc := f.specCtx(vc.oldState, vc.oldState)
